@@ -18,7 +18,8 @@ RULE = ("random BC point lists (1-6 points, distinct Mach, by Mach or by velocit
         "the table is given as DragDataPoint objects or the points are out of order")
 MUST_OBSERVE = ["points_by_bare_velocity", "models_built", "nodes_checked", "form_dicts", "form_donor_points", "form_fresh_points", "with_weight",
                 "without_weight", "single_point_equivalence", "single_point_fired", "by_velocity", "by_mach",
-                "shuffled_points", "second_builds", "donor_unchanged_checks", "foreign_model_tuned"]
+                "shuffled_points", "second_builds", "donor_unchanged_checks", "foreign_model_tuned",
+                "prior_model_same_nodes_other_bcs", "points_beyond_the_table"]
 ASSUMPTIONS = ["velocity points are converted to Mach with the standard 15 C speed of sound sqrt(288.15) x 20.0467 m/s",
                "the order of the caller's BC point list is not asserted (sorting it changes neither the table nor the points)"]
 VU = {"MPS": 1.0, "FPS": 0.3048, "KMH": 1 / 3.6, "MPH": 0.44704, "KT": 1852 / 3600}
@@ -98,6 +99,14 @@ def check_case(ctx, case):
         ctx.count("with_weight")
     else:
         ctx.count("without_weight")
+    if case.get("prior_bc_factors"):
+        # an earlier model of the same session: same table content, same bullet, BC points at the very same Mach numbers /
+        # velocities but with other BC values (two bullets whose stepped BCs are quoted for the same velocity bands)
+        ctx.count("prior_model_same_nodes_other_bcs")
+        prior_case = dict(case, points=[dict(p, bc=round(p["bc"] * f, 4)) for p, f in zip(case["points"], case["prior_bc_factors"])])
+        prior_table = table_arg if form == "dicts" else [DragDataPoint(m, c) for m, c in std]
+        for _ in range(2):
+            DragModelMultiBC(mk_points(prior_case), prior_table, **kw)
     pts = mk_points(case)
     if case.get("bare_velocities_in"):
         ctx.count("points_by_bare_velocity")
@@ -109,6 +118,8 @@ def check_case(ctx, case):
     shuffled = ordered != sorted(ordered)
     if shuffled:
         ctx.count("shuffled_points")
+    if max(ordered) > std[-1][0] or min(ordered) < std[0][0]:
+        ctx.count("points_beyond_the_table")
     law_pts = [(bp.Mach, bp.BC) for bp in pts]     # the library's own Mach reading of velocity points (checked above)
     before_t, before_p = snap_table(table_arg), snap_points(pts)
     donor_before = snap_table(donor.drag_table) if donor else None
@@ -210,7 +221,7 @@ def gen_case(rng):
     n = rng.choice([1, 1, 2, 3, 4, 6])
     machs = set()
     while len(machs) < n:
-        machs.add(round(rng.uniform(0.3, 4.0), 3))
+        machs.add(round(rng.uniform(0.3, 4.0) if rng.random() < 0.9 else rng.uniform(4.0, 6.5), 3))      # shipped tables end at Mach 4 or 5
     by_v = rng.random() < 0.5
     pts = []
     for m in machs:
@@ -226,6 +237,8 @@ def gen_case(rng):
         case["bare_velocities_in"] = rng.choice(list(VU))
     if rng.random() < 0.5:
         case.update(weight_gr=round(rng.uniform(40, 750), 1), diameter_in=round(rng.uniform(0.17, 0.6), 3))
+    if rng.random() < 0.3:
+        case["prior_bc_factors"] = [round(rng.uniform(0.5, 1.6), 3) for _ in pts]
     if n == 1 and isinstance(table, str) and rng.random() < 0.4:
         case["fire"] = {"mv_fps": round(rng.uniform(800, 3200), 0)}
     return case
